@@ -46,8 +46,9 @@ SCAL_CORE = [(-1., 0.), (1., 2.)]
 SPACES = {
     "quick": [
         ("full<=1", rm.FULL, 1, SCAL_FULL),
-        ("P3<=3", ["Sr", "Dc", "M"], 3, SCAL_CORE),
-        ("P12<=2", ["Sr", "Dc", "M", "Sc", "Srd", "Drd", "Dc1", "Dc2", "Dr2", "G", "N", "I"], 2, SCAL_CORE),
+        ("P4<=3", ["Sr", "Dc", "M", "G"], 3, SCAL_CORE),
+        ("P15<=2", ["Sr", "Dc", "M", "Sc", "Srd", "Drd", "Dc1", "Dc2", "Dc3", "Dr2", "G", "G5", "N", "I", "Z"], 2,
+         SCAL_CORE),
         ("X8<=2", ["Dr", "F", "Hy", "Dh", "Gpu", "Gup", "Du", "Su"], 2, SCAL_CORE),
         ("Q7<=2", ["Dq0", "Dq1", "Dq0t", "Dqf", "Sq", "Mq0", "C"], 2, SCAL_CORE),
         ("MD8<=2", ["Bdd", "Bds", "Bm", "Bma", "Bmb", "Smd", "Ba", "Bb"], 2, SCAL_CORE),
@@ -55,7 +56,7 @@ SPACES = {
     ],
     "thorough": [
         ("full<=2", rm.FULL, 2, SCAL_FULL),
-        ("P5<=3", ["Sr", "Sc", "Dc", "M", "G"], 3, SCAL_CORE),
+        ("P6<=3", ["Sr", "Sc", "Drd", "Dc", "M", "G"], 3, SCAL_CORE),
         ("X6<=3", ["Dr", "F", "Dh", "Gpu", "Gup", "Du"], 3, SCAL_CORE),
         ("Q5<=3", ["Dq0", "Dq1", "Dq0t", "Sq", "C"], 3, SCAL_CORE),
         ("MD4<=3", ["Bds", "Bm", "Bma", "Ba"], 3, SCAL_CORE),
